@@ -25,7 +25,10 @@ from .values import DictView, LazyMap, Obj, SeqVal, SymList
 
 
 class LoopContract:
-    def __init__(self, invariant, modifies=(), ghosts=(), kinds=None, variant=None, name=None, fields=()):
+    def __init__(self, invariant, modifies=(), ghosts=(), kinds=None, variant=None, name=None, fields=(), rows=None):
+        # rows: {column prefix: local name} - the loop writes that slot only in the row (object) the local refers to;
+        # only that row is havoced, and "all other rows unchanged" is an obligation on the body (frame-row)
+        self.rows = dict(rows or {})
         self.fields = tuple(fields)  # (local name, field name) of transient objects whose field the loop rewrites
         self.invariant = invariant  # python function (L, old, G[, visited|i]) -> bool
         self.modifies = tuple(modifies)  # column prefixes, e.g. "sensors.queue"
@@ -190,9 +193,24 @@ def _cut_loop(it, node, frame, key, lc, kind, iterinfo=None):
     if iterinfo:
         names |= assigned_names([ast.Expr(node.target)]) if False else set()
     _havoc_locals(it, frame, names, lc)
+    from .heap import sel, sto
+
+    rowidx = {}
     for col in lc.modifies:
+        ridx = None
+        if col in lc.rows:
+            row = frame.lookup(lc.rows[col])
+            if not isinstance(row, Row):
+                raise EngineError(f"loop {key}: rows[{col}] names {lc.rows[col]}, which is not an object of a table")
+            ridx = list(row.idx)
+            rowidx[col] = ridx
         for c in it.world.columns_under(col):
-            it.world.havoc(c)
+            if ridx is None:
+                it.world.havoc(c)
+            else:
+                cur = it.world.get(c)
+                fresh = ctx.fresh_term(cur.sort(), c + "_h")
+                it.world.set(c, sto(cur, ridx, sel(fresh, ridx)))
     for g in lc.ghosts:
         cur = ctx.ghost[g]
         ctx.ghost[g] = _havoc_ghost(it, g, cur)
@@ -211,17 +229,18 @@ def _cut_loop(it, node, frame, key, lc, kind, iterinfo=None):
             iterinfo.bind_next(it, node, frame)
         log_prev = it.write_log
         it.write_log = []
+        cols_before = dict(it.world.cols) if it.world is not None else {}
         try:
             r = _run_body(it, node.body, frame)
         finally:
             wl, it.write_log = it.write_log, log_prev
             if log_prev is not None:
                 log_prev.extend(wl)
+        _check_frame(it, wl, lc, key)
+        _check_frame_world(it, cols_before, lc, key, rowidx, oname)
         if r == "break":
             # leaving the loop from an arbitrary iteration: execution continues after the loop
-            _check_frame(it, wl, lc, key)
             return
-        _check_frame(it, wl, lc, key)
         extra2 = iterinfo.advanced(it) if iterinfo else []
         _eval_inv(it, lc, frame, old_ns, extra2, "assert", oname + ".pres")
         if lc.variant is not None:
@@ -254,6 +273,27 @@ class GhostArr:
 
     def __init__(self, term, roles, kind):
         self.term, self.roles, self.kind = term, tuple(roles), kind
+
+
+def _check_frame_world(it, cols_before, lc, key, rowidx, oname):
+    """frame of one arbitrary iteration, read off the heap itself (not the write log): a column whose term
+    changed must be listed in `modifies`; where the contract restricts the loop to one row, every other row
+    of the column must be provably unchanged"""
+    from .heap import sel, sto
+
+    if it.world is None:
+        return
+    for c, now in it.world.cols.items():
+        before = cols_before.get(c)
+        if before is not None and now.eq(before):
+            continue
+        m = next((m for m in lc.modifies if c == m or c.startswith(m + ".")), None)
+        if m is None:
+            raise EngineError(f"loop {key}: body writes column {c} which the loop contract does not list")
+        if m in rowidx and before is not None:
+            ridx = rowidx[m]
+            it.ctx.clause_kind = "loop"
+            it.ctx.oblige(oname + ".frame-row", sto(before, ridx, sel(now, ridx)) == now, kind="loop")
 
 
 def _check_frame(it, wl, lc, key):
@@ -535,4 +575,35 @@ def _lazy_list_comp(it, node, frame, src):
 
             raise PathDead() from None
 
+    if _elt_is_text(node.elt, g.target):
+        # text -> text bodies: the result is again a list of strings of the same length, element i = body(xs[i])
+        # (the body is re-run for every index the program asks for, so the text laws are instantiated for it)
+        from .values import SymList
+
+        def getf(i):
+            kind, t = ops.lift(ops.force(ok_body(ops.mk("str", src.elem(i)))))
+            if kind != "str":
+                raise Unsupported("comprehension body did not produce text")
+            return t
+
+        return SymList(ln, getf)
     return LazyMap(src, ok_body)
+
+
+_TEXT_METHODS = ("strip", "rstrip", "lstrip", "lower", "upper")
+
+
+def _elt_is_text(elt, target):
+    import ast
+
+    if not isinstance(target, ast.Name):
+        return False
+    if isinstance(elt, ast.Name):
+        return elt.id == target.id
+    return (
+        isinstance(elt, ast.Call)
+        and isinstance(elt.func, ast.Attribute)
+        and elt.func.attr in _TEXT_METHODS
+        and isinstance(elt.func.value, ast.Name)
+        and elt.func.value.id == target.id
+    )
